@@ -10,6 +10,7 @@ import LndModel.Prelude.Lines
 import LndModel.C07.Model
 import LndModel.C07.Mailbox
 import LndModel.C07.Fault
+import LndModel.C07.Kinds
 import LndModel.C07.Restart
 
 open LndModel LndModel.Lines LndModel.C07
@@ -156,6 +157,9 @@ structure MActive where
   pend : Bool
   remote : Nat
   pendingIdx : Option Nat
+  /-- 0 regular, 1 option-scid-alias, 2 zero-conf unconfirmed, 3 zero-conf confirmed -/
+  kind : Nat := 0
+  real : Nat := 0
 
 structure MEnv where
   closed : List MClosed := []
@@ -175,15 +179,33 @@ def mactive? (s : String) : Option MActive :=
     let ch ← nat? a
     let r ← nat? c
     let p ← if d == "-" then some none else (nat? d).map some
-    pure ⟨ch, b == "1", r, p⟩
+    pure { chan := ch, pend := b == "1", remote := r, pendingIdx := p }
+  | [a, b, c, d, k, rl] => do
+    let ch ← nat? a
+    let r ← nat? c
+    let p ← if d == "-" then some none else (nat? d).map some
+    let kd ← nat? k
+    let re ← nat? rl
+    pure { chan := ch, pend := b == "1", remote := r, pendingIdx := p, kind := kd, real := re }
   | _ => none
+
+/-- the channel as the channel DB reports it (model side). -/
+def MActive.toK (a : MActive) : KChan :=
+  { scid := a.chan,
+    kind := match a.kind with
+      | 1 => .scidAlias | 2 => .zeroConfUnconfirmed | 3 => .zeroConfConfirmed a.real | _ => .regular,
+    isPending := a.pend, remoteIdx := a.remote, pendingIdx := a.pendingIdx }
+
+def mkEnv (cl : List MClosed) (ac : List MActive) (res : List Key) : Env :=
+  KEnv.toEnv trimKey { closed := cl.map (fun c => ⟨c.chan, c.pend⟩), chans := ac.map MActive.toK, resMsg := res }
 
 structure MExpect where
   a : List Key
   k : List (Key × Key)
   o : List (Key × Key)      -- opened: out ↦ in
-  /-- channels (with bound) whose opened ids at/after the bound were one contiguous block -/
-  bounds : List (Nat × Nat × Bool)
+  /-- channels (with bound) whose opened ids at/after the bound were one contiguous block; last
+      component: channel kind and the number of keystones the trim has to roll back -/
+  bounds : List (Nat × Nat × Bool × Nat × Nat)
   purged : Nat
   trimmed : Nat
   resKept : Nat
@@ -204,13 +226,13 @@ def monRestart (e : MEnv) (a : List Key) (k : List (Key × Key)) : MExpect :=
   let o0 := k1.filter (fun p => a1.contains p.2)
   -- trims
   let live := e.active.filter (fun x => !x.pend && x.chan != 0)
-  let step (acc : List (Key × Key) × List (Key × Key) × List (Nat × Nat × Bool) × Nat) (x : MActive) :=
+  let step (acc : List (Key × Key) × List (Key × Key) × List (Nat × Nat × Bool × Nat × Nat) × Nat) (x : MActive) :=
     let (o, kk, bs, nt) := acc
     let start := x.pendingIdx.getD x.remote
     let n := monRunLen o x.chan (o.length + 1) start
     let gone (q : Key) : Bool := q.chan == x.chan && start ≤ q.id && q.id < start + n
     let contiguous := !(o.any (fun p => p.1.chan == x.chan && p.1.id ≥ start + n))
-    (o.filter (fun p => !(gone p.1)), kk.filter (fun p => !(gone p.1)), (x.chan, start, contiguous) :: bs, nt + n)
+    (o.filter (fun p => !(gone p.1)), kk.filter (fun p => !(gone p.1)), (x.chan, start, contiguous, x.kind, n) :: bs, nt + n)
   let (o1, k3, bs, nt) := live.foldl step (o0, k2, [], 0)
   { a := a1, k := k3, o := o1, bounds := bs, purged := a.length - a1.length, trimmed := nt, resKept := resKept }
 
@@ -261,6 +283,7 @@ structure St where
   trimmedAtRestart : Nat := 0
   resKept : Nat := 0
   gapRestarts : Nat := 0
+  trimsByKind : List Nat := [0, 0, 0, 0]
   expectDisk : Option MExpect := none
   lastFault : Bool := false
   faultRestarts : Nat := 0
@@ -399,10 +422,12 @@ def monAfterRestart (s : St) (ex : MExpect) (sn : Snap) : IO St := do
   if sortPairs sn.k != sortPairs ex.k then
     s ← monitor s "restart-keystones" s!"keystone bucket after restart = {joinStr ((sortPairs sn.k).map (fun p => keyStr p.1 ++ ">" ++ keyStr p.2))}, expected {joinStr ((sortPairs ex.k).map (fun p => keyStr p.1 ++ ">" ++ keyStr p.2))}"
   -- half-open rollback, stated directly
-  for (c, start, contiguous) in ex.bounds do
+  for (c, start, contiguous, kind, n) in ex.bounds do
+    if n > 0 then
+      s := { s with trimsByKind := s.trimsByKind.modify kind (· + 1) }
     if contiguous then
       if sn.o.any (fun e => e.key.chan == c && e.key.id ≥ start) then
-        s ← monitor s "half-open-rollback" s!"channel {c}: a keystone with id >= {start} (not committed) is still open after restart"
+        s ← monitor s "half-open-rollback" s!"channel {c} (kind={kind}: 0 regular, 1 scid-alias, 2 zero-conf unconfirmed, 3 zero-conf confirmed): a keystone with id >= {start} (not committed) is still open after restart"
     else
       s := { s with gapRestarts := s.gapRestarts + 1 }
   if s.disciplined then
@@ -882,9 +907,7 @@ def step (s : St) (line : String) : IO St := do
     let fail : Option Nat := ((kv? ws "fail").bind nat?).map (· - 1)
     let r := resOf ws
     let mut s := s
-    let env : Env := { closed := cl.map (fun c => ⟨c.chan, c.pend⟩),
-                       active := ac.map (fun a => ⟨a.chan, a.pend, a.remote, a.pendingIdx⟩),
-                       resMsg := res }
+    let env : Env := mkEnv cl ac res
     let (m', mErr) := restartF env fail s.model
     let mRes := if mErr then "rderr" else "ok"
     if mRes != r then
@@ -1206,8 +1229,7 @@ def step (s : St) (line : String) : IO St := do
     let mut s := s
     if r != "ok" then
       s ← mismatch s s!"wrestart: impl={r}"
-    let env : Env := { closed := [], active := ac.map (fun a => ⟨a.chan, a.pend, a.remote, a.pendingIdx⟩),
-                       resMsg := [] }
+    let env : Env := mkEnv [] ac []
     -- statistics on the implementation's own last dump: the crash window of the property
     let window := s.wEnts.any (fun e => e.acked && s.prev.o.any (fun x => x.key == e.out))
     let partialPkg := s.wEnts.any (fun e => e.acked && s.wEnts.any (fun e' =>
@@ -1271,6 +1293,10 @@ def main : IO Unit := do
   IO.println s!"STAT restart_keystones_trimmed={s.trimmedAtRestart}"
   IO.println s!"STAT restart_keystones_kept_for_resolution={s.resKept}"
   IO.println s!"STAT restart_bounds_with_gap={s.gapRestarts}"
+  IO.println s!"STAT restart_rollbacks_on_regular_channels={s.trimsByKind.getD 0 0}"
+  IO.println s!"STAT restart_rollbacks_on_scid_alias_channels={s.trimsByKind.getD 1 0}"
+  IO.println s!"STAT restart_rollbacks_on_unconfirmed_zero_conf_channels={s.trimsByKind.getD 2 0}"
+  IO.println s!"STAT restart_rollbacks_on_confirmed_zero_conf_channels={s.trimsByKind.getD 3 0}"
   IO.println s!"STAT restarts_with_failing_commit_tip_read={s.faultRestarts}"
   IO.println s!"STAT restarts_aborted_by_read_error={s.faultAborts}"
   IO.println s!"STAT fault_restarts_with_keystones_between_revoked_and_pending_index={s.faultKeptCommitted}"
